@@ -312,12 +312,19 @@ def c14_3(ctx):
         apps = {g.node_of(c) for c in ast.walk(w) if isinstance(c, ast.Call) and unparse(c.func) == 'line_obj_list.append'}
         ctx.check(bool(apps) and g.all_paths_through(be, head, apps), 'error:unknown-instruction', pl.site(w),
                   'every iteration either records a parsed line object or exits (unknown instruction)', 'an iteration can continue without having matched anything')
-    tail = [n for n in pl.node.body if isinstance(n, ast.If) and 'line_obj_list' in unparse(n.test)]
-    ok = False
-    for t in tail:
-        inner = [i for i in t.body if isinstance(i, ast.If) and "!= ''" in unparse(i.test) and body_only_aborts(i.body)]
-        ok = ok or bool(inner)
-    ctx.check(ok, 'error:unparsed-directive-text', pl.site(), 'a directive line that produced nothing although it has text is rejected', '')
+    # the bare line object (comment-only line) is built only when no statement text is left: otherwise -> exit
+    r_pl = resolver(ctx, pl, inline=False)
+    bare = [c for c in ast.walk(pl.node) if isinstance(c, ast.Call) and unparse(c.func) == 'LineObject']
+    ok = len(bare) >= 1
+    why = 'no bare LineObject construction found'
+    for c in bare:
+        cl = facts_at(ctx, pl, c, r_pl)
+        want = lit_cmp(ctx, pl, "instruction_str == ''", r_pl)
+        good = clause_implies(cl, want)
+        ok = ok and good
+        if not good:
+            why = describe_facts(cl)
+    ctx.check(ok, 'error:unparsed-directive-text', pl.site(bare[0]) if bare else pl.site(), 'a line that produced no statement although it has text left is rejected (only an empty rest becomes a comment-only line)', why)
     for q in ('bespokeasm.assembler.bytecode.generator.instruction.InstructionBytecodeGenerator.generate_bytecode_parts',
               'bespokeasm.assembler.bytecode.generator.macro.MacroBytecodeGenerator.generate_bytecode_parts'):
         f = ctx.repo.func(q)
